@@ -6,7 +6,16 @@
 // interface offers — on a fresh reader and on every reader still open — with a reference
 // model (a sorted Go map, kept per open reader as of its creation). States are merged by a
 // canonical key made of model-side facts only: per key {never written, last write was a delete,
-// value}, plus the multiset of the open readers' snapshot contents.
+// value}, plus the multiset of the open readers' snapshot contents. The search structure is
+// therefore independent of what the implementation answers, and deterministic.
+//
+// Batches are built through NewBatch and (moss everywhere, the others in one search) through
+// NewBatchEx with keys and values placed in the returned buffer, which is how upsidedown writes.
+//
+// Violations are classed by store + operation pattern (classify): every per-key discrepancy of
+// an observation is named on its own, so compound counterexamples fall apart into their causes.
+//
+// A supplementary pass compares the upsidedown index over moss with the same index over gtreap.
 package c15
 
 import (
@@ -1192,7 +1201,7 @@ func (c *checker) indexOverMoss() {
 	r := c.r
 	ls := gen.Leaves()
 	qs := append([]*ref.Q{}, ls...)
-	red := gen.Reduced(ls, mc.Pick(r, 5, 2))
+	red := gen.Reduced(ls, 5)
 	for _, a := range red {
 		for _, b := range red {
 			qs = append(qs,
@@ -1210,7 +1219,10 @@ func (c *checker) indexOverMoss() {
 	scripts := []script{{del: []int{2, 4, 7}}, {del: []int{2, 4, 7}, reindex: true}, {del: []int{0}}, {del: []int{n - 1, 0}}}
 	if !r.Quick() {
 		for _, sub := range gen.Subsets(n, 2) {
-			scripts = append(scripts, script{del: sub}, script{del: sub, reindex: true})
+			scripts = append(scripts, script{del: sub})
+			if len(sub) == 1 {
+				scripts = append(scripts, script{del: sub, reindex: true})
+			}
 		}
 		all := script{}
 		for i := 0; i < n; i++ {
@@ -1223,7 +1235,7 @@ func (c *checker) indexOverMoss() {
 		sc := scripts[si]
 		fid := c.seq.Add(1)
 		fl := &flight{start: time.Now(), sname: "index-over-moss"}
-		ph := fmt.Sprintf("script delete %v reindex %v", sc.del, sc.reindex)
+		ph := "build-or-search"
 		fl.phase.Store(&ph)
 		c.mu.Lock()
 		c.inflight[fid] = fl
@@ -1273,6 +1285,9 @@ func (c *checker) indexOverMoss() {
 		defer im.Close()
 		defer ig.Close()
 		for _, q := range qs {
+			c.mu.Lock()
+			fl.start = time.Now() // the watchdog bounds one query, not the script
+			c.mu.Unlock()
 			ids := func(idx bleve.Index) (map[string]bool, uint64, error) {
 				req := bleve.NewSearchRequest(ref.ToBleve(q))
 				req.Size = n + 3
@@ -1292,11 +1307,11 @@ func (c *checker) indexOverMoss() {
 			pv, st := mc.Try(func() { gm, tm, em = ids(im); gg, tg, eg = ids(ig) })
 			r.Eval(1)
 			if pv != nil {
-				r.Violation("index-over-moss:search-panics:"+q.Kind, fmt.Sprintf("%v: %v @ %s", rep(q), pv, mc.TrimStack(st)), rep(q))
+				r.Violation("index-over-moss:search-panics", fmt.Sprintf("%v: %v @ %s", rep(q), pv, mc.TrimStack(st)), rep(q))
 				continue
 			}
 			if (em != nil) != (eg != nil) {
-				r.Violation("index-over-moss:error-differs-from-gtreap:"+q.Kind, fmt.Sprintf("%v: moss err=%v gtreap err=%v", rep(q), em, eg), rep(q))
+				r.Violation("index-over-moss:error-differs-from-gtreap", fmt.Sprintf("%v: moss err=%v gtreap err=%v", rep(q), em, eg), rep(q))
 				continue
 			}
 			if em != nil {
@@ -1309,7 +1324,7 @@ func (c *checker) indexOverMoss() {
 				}
 			}
 			if strings.Join(sortedKeys(gm), ",") != strings.Join(sortedKeys(gg), ",") || tm != tg {
-				r.Violation("index-over-moss:hits-differ-from-gtreap:"+q.Kind, fmt.Sprintf("%v: moss %v (total %d), gtreap %v (total %d)", rep(q), sortedKeys(gm), tm, sortedKeys(gg), tg), rep(q))
+				r.Violation("index-over-moss:hits-differ-from-gtreap", fmt.Sprintf("%v: moss %v (total %d), gtreap %v (total %d)", rep(q), sortedKeys(gm), tm, sortedKeys(gg), tg), rep(q))
 			}
 			r.Outcome(fmt.Sprintf("index|%s|%d", q.Kind, len(gm)))
 		}
@@ -1353,7 +1368,7 @@ func Run(r *mc.Run) {
 		}
 	}
 
-	r.Rule("E1 breadth-first search over operation sequences on each real store (boltdb, goleveldb, gtreap, moss, metrics over gtreap and over boltdb): operations = execute a batch of ≤ 2 entries from {Set, Delete, Merge(+1)} over keys {a, a\\x00, a\\xff, a\\xffb, b, \\xff} and values {\"\",1,2}, open a reader, close a reader; every transition replays its path on a fresh store instance and then checks, on a fresh reader and on every still-open reader (against the model as of its creation), Get of every key and an absent one, MultiGet, PrefixIterator for 5 prefixes and RangeIterator for all 49 (start,end) pairs incl. nil bounds, each plain and after Seek to every key, as exact key/value sequences; states are merged on (per key: never written / deleted / value; multiset of open snapshot contents). Searches per store: wide1 = every batch of the alphabet from the empty store (quick: pairs thinned), wide2 (thorough) = depth 2 over the thinned pair alphabet, deep = depth 3 → 4 over a 17 → 21-batch alphabet that makes histories collide on the same keys, with up to 2 open readers. An outcome is (live keys, open readers, readers behind later writes)")
+	r.Rule("E1 breadth-first search over operation sequences on each real store (boltdb, goleveldb, gtreap, moss, metrics over gtreap and over boltdb): operations = execute a batch of ≤ 2 entries from {Set, Delete, Merge(+1)} over keys {a, a\\x00, a\\xff, a\\xffb, b, \\xff} and values {\"\",1,2}, open a reader, close a reader; every transition replays its path on a fresh store instance and then checks, on a fresh reader and on every still-open reader (against the model as of its creation), Get of every key and an absent one, MultiGet, PrefixIterator for 5 prefixes and RangeIterator for all 49 (start,end) pairs incl. nil bounds, each plain and after Seek to every key, as exact key/value sequences; states are merged on (per key: never written / deleted / value; multiset of open snapshot contents). Searches per store: wide1 = every batch of the alphabet from the empty store (quick: pairs thinned), wide2 (thorough) = depth 2 over the thinned pair alphabet, deep = depth 3 → 4 over a 17 → 21-batch alphabet that makes histories collide on the same keys, with up to 2 open readers. Supplementary: the upsidedown index over moss against the same index over gtreap on delete scripts × the shared query family (identical hit sets, no deleted document). An outcome is (live keys, open readers, readers behind later writes), resp. (query kind, number of hits)")
 	r.Assume("boltdb is opened with the adapter's initialMmapSize option = 16 MiB (a bbolt write that must grow the mmap waits for open read transactions; isolation, not progress, is claimed)",
 		"goleveldb is opened with the adapter's write_buffer_size option = 64 KiB (the default 4 MiB buffer is allocated and zeroed on every open)",
 		"inside one batch a key has either merges or sets/deletes, never both (adapter-defined, unused by upsidedown)",
